@@ -166,6 +166,9 @@ func Parse(src string, ic Icpt) (*Pattern, error) {
 			}
 		default:
 			pm.Kind = Regex
+			if _, err := regexp.Compile(rule); err != nil { // the rule itself must be a regexp ("a)|(b" is not)
+				return nil, ErrBadRegexp
+			}
 			re, err := regexp.Compile("^(?:" + rule + ")$")
 			if err != nil {
 				return nil, ErrBadRegexp
